@@ -1,17 +1,36 @@
 /-
-  PDesy.Lemmas.SlackShift — is the total slack `lst − est` of `update_PERT_data` shift invariant
-  (same remaining work, clock `d` steps later) on GENERAL acyclic networks?
+  PDesy.Lemmas.SlackShift — how does the total slack `lst − est` of `update_PERT_data` change
+  when the same remaining work is looked at `d` steps later, on GENERAL acyclic networks (any mix of
+  FS / SS / FF / SF links, negative remaining work of overshooting tasks included)?
 
-  Answer: NO on reachable states as soon as a task can overshoot (a WORKING task behind a closed
-  FF / SF finish gate whose remaining work goes below zero), YES when no remaining work is
-  negative, whatever the link kinds.
+  History.  The backward pass used to test "`lft` not calculated yet" by `pre_lft < 0`.  A task that
+  is WORKING behind a closed FF / SF finish gate overshoots (`remaining_work_amount < 0`) and can get
+  a genuinely negative `lft`, which any later relaxation then overwrote — at a small clock only, so
+  the slack depended on the absolute time.  The models `cxM`, `cxM4`, `cxR` of Part 1 were
+  counterexamples to C10 clause 3 under TSLACK (replayed on the Python code).  The code now remembers
+  the tasks it has set in the current pass (`calculated_task_set`; `Pert.done` in the model), the
+  test is `pv not in calculated_task_set or pre_lft >= lft`, and the backward pass contains no
+  comparison with an absolute number any more.
 
-  Part 1 (this file, `cxM` …): the concrete model of the counterexample and the two run states at
-  which the comparison of `sort_task_list(TSLACK)` differs.  The backward pass stores
-  `lft(P) = lst(O1) + rem(P)` along a start-to-start link out of the overshooting task `P`; in the
-  run without absence this is `−1` at time 1 and the test `pre_lft < 0` of the next relaxation
-  into `P` takes it for "not yet set" and overwrites it; in the run with one absence step the same
-  value is `0` at time 2 and is kept.
+  Answer now: the slack of EVERY task changes by the SAME constant `(cpl' − cpl) − d`
+  (`pert_slack_shift_dag`), so `sort_task_list(TSLACK)` orders the tasks in the same way.  The
+  constant is `0` when no remaining work is negative (`pert_slack_shift_nonneg`); it need not be `0`
+  otherwise (`cxR_slack`: a tail task all of whose forward relaxations are rejected keeps the `eft`
+  of an earlier `update_PERT_data`, and that stale `eft` is the critical path length).
+
+  Part 1 (`cxM` …): the concrete models of the former counterexamples, the run states at which
+  the comparison of `sort_task_list(TSLACK)` used to differ (`cx_slack`, `cx_order`: equal now) and
+  the states of `cxR` at which the slacks differ by the constant `−1` (`cxR_slack`).
+
+  Part 2: forward pass — `pertFwd_shift` (no negative remaining work: `est`, `eft` exactly `d`
+  later); backward pass — `brel_step`, `pertBwd_shift`, `pert_lst_shift`: on a consistent acyclic
+  network with ANY link kinds, ANY remaining work and ANY old PERT data, `lst` and `lft` of two
+  computations on the same remaining work differ by `cpl' − cpl`.  `pert_slack_shift_dag`,
+  `pert_shift_nonneg`, `pert_slack_shift_nonneg`.
+
+  Part 3: the final assembly of `PDesy.Lemmas.Removal` once more with that lemma: `removal_dag`
+  (C10.3 for TSLACK on any consistent acyclic network, no further condition), and its former partial
+  forms `removal_nonneg`, `removal_noGate` as corollaries.
 -/
 import PDesy.Lemmas.Removal
 import PDesy.Lemmas.PertIdem
@@ -19,7 +38,7 @@ import PDesy.Lemmas.PertIdem
 namespace PDesy
 namespace SlackShift
 
-open Idem PertSpec Removal
+open Idem PertSpec Removal PertIdem Edit
 
 /-! ## Part 1 — the counterexample model -/
 
@@ -35,6 +54,12 @@ structure ModelOKw (S : Model → Prop) (m : Model) (rule : TaskRule) : Prop whe
 theorem modelOKw_of (m : Model) (rule : TaskRule) (h : ModelOK m rule) : ModelOKw SlackOK m rule :=
   ⟨h.noInd, h.compNoAuto, h.wf, h.notFifo, h.slack⟩
 
+/-- `ModelOK` (TSLACK on finish-to-start networks only) is the special case of
+`ModelOKw (GraphOK ∧ Acyclic)` -/
+theorem modelOKw_dag_of (m : Model) (rule : TaskRule) (h : ModelOK m rule) :
+    ModelOKw (fun m => GraphOK m ∧ Acyclic m) m rule :=
+  ⟨h.noInd, h.compNoAuto, h.wf, h.notFifo, fun ht => (h.slack ht).2⟩
+
 /-- Six tasks, two workers, no component, no workplace.
 
 * `0 = K` work 1; `1 = G` work 2 and `2 = H` work 1, both finish-to-start after `K`;
@@ -45,7 +70,7 @@ theorem modelOKw_of (m : Model) (rule : TaskRule) (h : ModelOK m rule) : ModelOK
 * worker `0` has skill 1 for `K`, `G`, `H`; worker `1` has skill 3 for `P`.
 
 `P` is finished after one step of work (1 − 3 = −2) but stays WORKING behind its finish gate and
-overshoots by 3 per step. -/
+overshoots by 3 per step.  (Former counterexample, absence list `[0]`.) -/
 def cxM : Model where
   nT := 6
   nW := 2
@@ -118,6 +143,87 @@ theorem cxM4_ok (rule : TaskRule) (h : rule ≠ .fifo) :
   notFifo := h
   slack := fun _ => ⟨cxM_graphOK, cxM_acyclic⟩
 
+/-- **All progress rates ≤ 1.**  Eight tasks, three workers (each task has at most one skilled
+worker, every skill is ≤ 1, automatic tasks progress by 1 per step):
+
+* `0 = K` work 1/2; `1 = g` work 2 and `2 = h` work 2, both finish-to-start after `K`;
+* `3 = pv` work 1/4, finish-to-finish after `g`;
+* `4 = o` work 0, finish-to-finish after `pv`;
+* `5 = o2` automatic, work 1, finish-to-start after `pv`; `7 = o3` automatic, work 1,
+  finish-to-start after `o2`;
+* `6 = q` automatic, work 10, finish-to-start after `o`;
+* worker `0`: skill 1/2 for `K`, 1 for `g` and `h`; worker `1`: skill 1 for `pv`; worker `2`:
+  skill 1/8 for `o`.
+
+`pv` and `o` overshoot (by 1 and by 1/8 per step) behind their finish gates.  The FS relaxation
+`o → q` of the forward pass is then rejected and the tail `q` keeps the `eft` of the previous
+`update_PERT_data`, so that `lst(q) < est(q)`; `lft(pv) = lst(o) + rem(pv)` along the FF link
+`pv → o` is `−1/8` at time 1 in the run without absence and `7/8` at time 2 in the run with the
+absence step 0 (before the repair of the backward pass the first was misread as "unset").
+(Former counterexample, absence list `[0]`.) -/
+def cxR : Model where
+  nT := 8
+  nW := 3
+  nF := 0
+  nTeam := 1
+  nWp := 0
+  nC := 0
+  task := fun t =>
+    match t with
+    | 0 => { name := 0, work := 1/2, outputs := [(1, .fs), (2, .fs)] }
+    | 1 => { name := 1, work := 2, inputs := [(0, .fs)], outputs := [(3, .ff)] }
+    | 2 => { name := 2, work := 2, inputs := [(0, .fs)] }
+    | 3 => { name := 3, work := 1/4, inputs := [(1, .ff)], outputs := [(4, .ff), (5, .fs)] }
+    | 4 => { name := 4, work := 0, inputs := [(3, .ff)], outputs := [(6, .fs)] }
+    | 5 => { name := 5, work := 1, isAuto := true, inputs := [(3, .fs)], outputs := [(7, .fs)] }
+    | 6 => { name := 6, work := 10, isAuto := true, inputs := [(4, .fs)] }
+    | _ => { name := 7, work := 1, isAuto := true, inputs := [(5, .fs)] }
+  worker := fun w =>
+    match w with
+    | 0 => { team := 0, skills := [(0, 1/2), (1, 1), (2, 1)] }
+    | 1 => { team := 0, skills := [(3, 1)] }
+    | _ => { team := 0, skills := [(4, 1/8)] }
+  fac := fun _ => {}
+  team := fun _ => { workers := [0, 1, 2], targets := [0, 1, 2, 3, 4, 5, 6, 7] }
+  wp := fun _ => {}
+  comp := fun _ => {}
+
+theorem cxR_cases {t : Nat} (ht : t < cxR.nT) :
+    t = 0 ∨ t = 1 ∨ t = 2 ∨ t = 3 ∨ t = 4 ∨ t = 5 ∨ t = 6 ∨ t = 7 := by
+  simp only [cxR] at ht; omega
+
+theorem cxR_wf : WF cxR := by
+  intro t ht
+  rcases cxR_cases ht with rfl | rfl | rfl | rfl | rfl | rfl | rfl | rfl <;> decide +kernel
+
+theorem cxR_acyclic : Acyclic cxR := by
+  refine ⟨id, ?_⟩
+  intro t ht
+  rcases cxR_cases ht with rfl | rfl | rfl | rfl | rfl | rfl | rfl | rfl <;> decide +kernel
+
+theorem cxR_graphOK : GraphOK cxR := by decide +kernel
+
+theorem cxR_workOK : WorkOK cxR := by
+  intro t ht
+  rcases cxR_cases ht with rfl | rfl | rfl | rfl | rfl | rfl | rfl | rfl <;> decide +kernel
+
+theorem cxR_ok (rule : TaskRule) (h : rule ≠ .fifo) :
+    ModelOKw (fun m => GraphOK m ∧ Acyclic m) cxR rule where
+  noInd := ⟨fun w hw => by
+      have : w = 0 ∨ w = 1 ∨ w = 2 := by simp only [cxR] at hw; omega
+      rcases this with rfl | rfl | rfl <;> rfl, fun _ _ => rfl⟩
+  compNoAuto := fun c t ht => by simp [cxR] at ht
+  wf := cxR_wf
+  notFifo := h
+  slack := fun _ => ⟨cxR_graphOK, cxR_acyclic⟩
+
+/-- every skill of every worker of `cxR` is at most 1, and no task has two skilled workers -/
+theorem cxR_rates :
+    (∀ w ∈ [0, 1, 2], ∀ e ∈ (cxR.worker w).skills, e.2 ≤ 1) ∧
+    (∀ t ∈ List.range 8, (([0, 1, 2] : List Nat).filter
+      (fun w => hasSkill (cxR.worker w).skills (cxR.task t).name)).length ≤ 1) := by
+  decide +kernel
+
 /-- parameters of run A (absence step 0) and run B (no absence), rule TSLACK, flag off -/
 def pA : Params := { absence := [0], maxTime := 40 }
 def pB : Params := { absence := [], maxTime := 40 }
@@ -142,31 +248,908 @@ theorem cx_states :
 /-- total slack of every task after `__update` -/
 def slacks (l : Live) : List Rat := (List.range 6).map fun t => l.lst t - l.est t
 
-/-- **the slack is not shift invariant on these reachable states**: run B (time 1) gives `G`
-the slack 4 and `H` the slack 2; run A (time 2, same remaining work) gives `G` the slack 0 and `H`
-the slack 2.  In run A the value `lft(P) = 0` stored along the SS link from `O1` survives (and
-`lft(G) = 0`); in run B it is `−1`, is overwritten along the FS link from `O2`, and `lft(P) = 3`. -/
+/-- **the slack on these reachable states, after the repair of the backward pass**: run B
+(time 1) and run A (time 2, same remaining work) give the same slacks `[0, 0, 2, 0, 0, 2]`; every
+`lft` of run A is that of run B plus 1, the negative `lft(P) = lft(G) = −1` of run B included.
+(Before the repair — "not yet set" was tested by `pre_lft < 0` — the value `lft(P) = −1` stored in
+run B along the SS link from `O1` was taken for unset and overwritten along the FS link from `O2`:
+run B had the slacks `[2, 4, 2, 4, 0, 2]` and the `lft` `[3, 3, 4, 3, 4, 4]`, run A
+`[0, 0, 2, 0, 0, 2]` and `[2, 0, 5, 0, 5, 5]`.) -/
 theorem cx_slack :
-    slacks (update cxM 1 b1.live) = [2, 4, 2, 4, 0, 2] ∧
+    slacks (update cxM 1 b1.live) = [0, 0, 2, 0, 0, 2] ∧
     slacks (update cxM 2 a2.live) = [0, 0, 2, 0, 0, 2] ∧
-    (List.range 6).map (update cxM 1 b1.live).lft = [3, 3, 4, 3, 4, 4] ∧
+    (List.range 6).map (update cxM 1 b1.live).lft = [1, -1, 4, -1, 4, 4] ∧
     (List.range 6).map (update cxM 2 a2.live).lft = [2, 0, 5, 0, 5, 5] := by
   decide +kernel
 
 /-- the same with `pert` applied to ONE state at two times (the form of
-`Removal.pert_slack_shift`): `l' = l`, `time = 1`, `d = 1` -/
+`Removal.pert_slack_shift`): `l' = l`, `time = 1`, `d = 1` — equal now (was `≠`) -/
 theorem cx_slack_same_state :
-    (pert cxM (1 + 1) (upd0 cxM b1.live)).lst 1 - (pert cxM (1 + 1) (upd0 cxM b1.live)).est 1 ≠
+    (pert cxM (1 + 1) (upd0 cxM b1.live)).lst 1 - (pert cxM (1 + 1) (upd0 cxM b1.live)).est 1 =
       (pert cxM 1 (upd0 cxM b1.live)).lst 1 - (pert cxM 1 (upd0 cxM b1.live)).est 1 := by
   decide +kernel
 
-/-- **the order of `sort_task_list(TSLACK)` differs**: the READY / WORKING tasks `G, H, P, O1`
-are sorted `O1, H, G, P` in run B and `G, P, O1, H` in run A — the free worker `0` goes to `H`
-in run B and to `G` in run A. -/
+/-- **the order of `sort_task_list(TSLACK)` is the same**: the READY / WORKING tasks
+`G, H, P, O1` are sorted `G, P, O1, H` in both runs (before the repair run B sorted them
+`O1, H, G, P` and gave the free worker `0` to `H` instead of `G`). -/
 theorem cx_order :
-    sortTasks cxM (update cxM 1 b1.live) b1.logs .tslack [1, 2, 3, 4] = [4, 2, 1, 3] ∧
+    sortTasks cxM (update cxM 1 b1.live) b1.logs .tslack [1, 2, 3, 4] = [1, 3, 4, 2] ∧
     sortTasks cxM (update cxM 2 a2.live) a2.logs .tslack [1, 2, 3, 4] = [1, 3, 4, 2] := by
   decide +kernel
+
+/-- `cxR`: run B (no absence) at the top of iteration 1, run A (absence step 1) at the top of
+iteration 2 — one working step done in both, and in run A one absence step after it -/
+def pAR : Params := { absence := [1], maxTime := 80 }
+def pBR : Params := { absence := [], maxTime := 80 }
+def bR : St := stepBody cxR pBR (updated cxR (enter cxR pBR St.fresh))
+def aR : St := stepBody cxR pAR (updated cxR (stepBody cxR pAR (updated cxR (enter cxR pAR St.fresh))))
+
+def slacks8 (l : Live) : List Rat := (List.range 8).map fun t => l.lst t - l.est t
+
+/-- **on reachable states the slack is shift invariant only up to a constant.**  Same task states,
+same remaining work `[0, 2, 2, −3/4, −1/8, 1, 10, 1]`, clocks 1 and 2.  The FS relaxation `o → q` of
+the forward pass is rejected in both (`o` has overshot), the tail `q` keeps `eft = 21/2` from the
+`update_PERT_data` at time 0, which is the critical path length in both runs; so every `lst` is the
+same in both runs, every `est` is 1 later in run A, and every slack of run A is that of run B
+minus 1.  The order of `sort_task_list(TSLACK)` is the same. -/
+theorem cxR_slack :
+    aR.time = bR.time + 1 ∧ bR.time = 1 ∧
+    (List.range 8).map (upd0 cxR aR.live).rem = [0, 2, 2, -3/4, -1/8, 1, 10, 1] ∧
+    (List.range 8).map (upd0 cxR bR.live).rem = [0, 2, 2, -3/4, -1/8, 1, 10, 1] ∧
+    (update cxR 1 bR.live).cpl = 21/2 ∧ (update cxR 2 aR.live).cpl = 21/2 ∧
+    slacks8 (update cxR 1 bR.live) = [-3/8, -3/8, 15/2, -3/8, -3/8, 15/2, -1/2, 15/2] ∧
+    slacks8 (update cxR 2 aR.live) = [-11/8, -11/8, 13/2, -11/8, -11/8, 13/2, -3/2, 13/2] ∧
+    sortTasks cxR (update cxR 1 bR.live) bR.logs .tslack [1, 2, 3, 4] = [1, 3, 4, 2] ∧
+    sortTasks cxR (update cxR 2 aR.live) aR.logs .tslack [1, 2, 3, 4] = [1, 3, 4, 2] := by
+  decide +kernel
+
+/-- the same with `pert` applied to ONE state at two times: the slack of task `K` is `−3/8` at
+time 1 and `−11/8` at time 2 -/
+theorem cxR_slack_same_state :
+    (pert cxR (1 + 1) (upd0 cxR bR.live)).lst 0 - (pert cxR (1 + 1) (upd0 cxR bR.live)).est 0 ≠
+      (pert cxR 1 (upd0 cxR bR.live)).lst 0 - (pert cxR 1 (upd0 cxR bR.live)).est 0 := by
+  decide +kernel
+
+/-! ## Part 2 — general link kinds: the slack is shift invariant up to one constant
+
+Forward pass: `est` and `eft` are `d` later (`pertFwd_shift`; the old `eft` is forgotten,
+`pertFwd_norm`), every `est` is at least the clock (`pertFwd_lo`), `est + rem ≤ eft`
+(`pertFwd_span`) and the final `est` satisfies every edge inequality (`pertFwd_edge`).
+Backward pass: the relation `BRel c` (same `calculated_task_set` in both tables, the tasks in it
+hold values `c` apart) is preserved by every relaxation out of a task whose values are `c` apart
+(`brel_step`: the test `pv not in calculated_task_set or pre_lft >= lft` takes the same branch in
+both), and the waves reach every task (`bwdLoop_cover`).  Result: `pertBwd_shift`,
+`pert_lst_shift` (any remaining work), `pert_slack_shift_dag`, `pert_shift_nonneg`,
+`pert_slack_shift_nonneg`. -/
+
+section fwd
+
+/-- `est` never decreases along the forward fold -/
+theorem fold_est_mono (l : Live) : ∀ (evs : List Ev) (p : Pert) (j : Nat),
+    p.est j ≤ (evs.foldl (evStep l) p).est j := by
+  intro evs
+  induction evs with
+  | nil => intro p j; exact Rat.le_refl
+  | cons ev rest ih =>
+    intro p j
+    rw [List.foldl_cons]
+    refine Rat.le_trans ?_ (ih _ j)
+    by_cases hacc : Acc l p ev
+    · rw [evStep_acc l p ev hacc]
+      show p.est j ≤ upd p.est ev.2.1 _ j
+      rw [upd_apply]
+      split
+      · rename_i h; rw [h]; exact hacc
+      · exact Rat.le_refl
+    · rw [evStep_rej l p ev hacc]; exact Rat.le_refl
+
+/-- a task into which no event of the list leads keeps its `est` -/
+theorem fold_est_keep (l : Live) : ∀ (evs : List Ev) (p : Pert) (j : Nat),
+    (∀ ev ∈ evs, ev.2.1 ≠ j) → (evs.foldl (evStep l) p).est j = p.est j := by
+  intro evs
+  induction evs with
+  | nil => intro p j _; rfl
+  | cons ev rest ih =>
+    intro p j h
+    rw [List.foldl_cons, ih _ j (fun e he => h e (List.mem_cons_of_mem _ he))]
+    have hne : j ≠ ev.2.1 := fun e => h ev (List.mem_cons_self ..) e.symm
+    by_cases hacc : Acc l p ev
+    · rw [evStep_acc l p ev hacc]
+      show upd p.est ev.2.1 _ j = p.est j
+      rw [upd_other _ _ _ _ hne]
+    · rw [evStep_rej l p ev hacc]
+
+/-- **the final `est` satisfies every edge inequality**: along an event list with the structural
+property `SS`, the `est` the pass ends with is, at the target of every event, at least what the
+event proposes from the final `est` of its source -/
+theorem fold_edge (l : Live) : ∀ (evs : List Ev) (p : Pert), SS evs → (∀ ev ∈ evs, ev.1 ≠ ev.2.1) →
+    ∀ ev ∈ evs, (fwdCand l (evs.foldl (evStep l) p) ev.1 ev.2).1 ≤ (evs.foldl (evStep l) p).est ev.2.1 := by
+  intro evs
+  induction evs with
+  | nil => intro p _ _ ev h; simp at h
+  | cons ev0 rest ih =>
+    intro p hss hns ev hev
+    rw [List.foldl_cons]
+    by_cases hin : ev ∈ rest
+    · exact ih _ (SS_tail hss) (fun e he => hns e (List.mem_cons_of_mem _ he)) ev hin
+    · have he0 : ev = ev0 := by
+        rcases List.mem_cons.mp hev with h | h
+        · exact h
+        · exact absurd h hin
+      subst he0
+      have hne : ev.1 ≠ ev.2.1 := hns ev (List.mem_cons_self ..)
+      -- no later event leads into the source
+      have hno : ∀ e2 ∈ rest, e2.2.1 ≠ ev.1 := by
+        intro e2 he2 heq
+        obtain ⟨ys1, ys2, hs⟩ := List.append_of_mem he2
+        have := hss (ev :: ys1) e2 ys2 (by rw [hs]; rfl) ev (List.mem_cons_self ..) heq.symm
+        exact hin (by rw [hs]; simp [this])
+      have hkeep := fold_est_keep l rest (evStep l p ev) ev.1 hno
+      have hsrc : (evStep l p ev).est ev.1 = p.est ev.1 := by
+        by_cases hacc : Acc l p ev
+        · rw [evStep_acc l p ev hacc]
+          show upd p.est ev.2.1 _ ev.1 = p.est ev.1
+          rw [upd_other _ _ _ _ hne]
+        · rw [evStep_rej l p ev hacc]
+      rw [cand1_congr l ev.1 ev.2 (hkeep.trans hsrc)]
+      refine Rat.le_trans ?_ (fold_est_mono l rest _ ev.2.1)
+      by_cases hacc : Acc l p ev
+      · rw [evStep_acc l p ev hacc]
+        show _ ≤ upd p.est ev.2.1 _ ev.2.1
+        rw [upd_same]; exact Rat.le_refl
+      · rw [evStep_rej l p ev hacc]
+        exact Rat.le_of_lt (Rat.not_le.mp hacc)
+
+end fwd
+section cover
+variable {m : Model}
+
+theorem wf_of_graphOK (hok : GraphOK m) : WF m := fun t ht =>
+  ⟨fun e he => ((hok t ht).1 e he).1, fun e he => ((hok t ht).2 e he).1⟩
+
+/-- on a consistent acyclic graph every output link of every task is relaxed by the forward pass -/
+theorem all_fwdEvs (hok : GraphOK m) (hac : Acyclic m) :
+    ∀ i, i < m.nT → ∀ e ∈ (m.task i).outputs, (i, e) ∈ fwdEvs m (m.nT + 1) (heads m) := by
+  obtain ⟨rk, hrk⟩ := fwdRanked_of hok hac
+  have hg := dag_of hok hac
+  apply hg.induction
+  intro x hx ih e he
+  cases hin : (m.task x).inputs with
+  | nil =>
+    have hh : x ∈ heads m := PertSpec.mem_heads.2 ⟨hx, Gm_nil.2 hin⟩
+    have hne : (heads m).isEmpty = false := by
+      cases hc : heads m with
+      | nil => rw [hc] at hh; simp at hh
+      | cons _ _ => rfl
+    simp only [fwdEvs, hne]
+    apply List.mem_append_left
+    exact (mem_waveEvs m _ _).mpr ⟨hh, he⟩
+  | cons e0 es =>
+    have he0 : e0 ∈ (m.task x).inputs := by rw [hin]; exact List.mem_cons_self ..
+    obtain ⟨hp, hout⟩ := (hok x hx).1 e0 he0
+    have hmem := ih e0.1 (mem_Gm.2 ⟨e0.2, he0⟩) (x, e0.2) hout
+    obtain ⟨pre, ys2, hs⟩ := List.append_of_mem hmem
+    have := fwdEvs_after m rk hrk (m.nT + 1) (heads m) 0 (by omega)
+      (fun i hi => ⟨(Idem.mem_heads m i hi).1, Nat.zero_le _⟩) pre (e0.1, (x, e0.2)) ys2 hs e he
+    rw [hs]
+    simp [this]
+
+/-- with no negative remaining work every task that has a predecessor is written by the pass -/
+theorem all_written (hok : GraphOK m) (hac : Acyclic m) (l : Live) (time : Rat)
+    (hnn : ∀ t, t < m.nT → 0 ≤ l.rem t) :
+    ∀ t, t < m.nT → (m.task t).inputs ≠ [] → FwdWrites m l time t := by
+  intro t ht hne
+  obtain ⟨e0, he0⟩ := List.exists_mem_of_ne_nil _ hne
+  obtain ⟨hp, hout⟩ := (hok t ht).1 e0 he0
+  have hmem := all_fwdEvs hok hac e0.1 hp (t, e0.2) hout
+  have := Wr_of_mem l (e0.1, (t, e0.2)) _ (fwdInit m time l) hmem (by
+    show (if t < m.nT then time else l.est t) ≤ _
+    rw [if_pos ht]
+    have h1 := fwdCand_ge l (fwdInit m time l) e0.1 (t, e0.2) (fun _ => hnn e0.1 hp)
+    have h2 : (fwdInit m time l).est e0.1 = time := by
+      show (if e0.1 < m.nT then time else l.est e0.1) = time
+      rw [if_pos hp]
+    rw [h2] at h1
+    exact h1)
+  exact this
+
+/-- **the forward pass forgets the old `eft` below `m.nT`** (consistent acyclic graph, no negative
+remaining work): two states with the same remaining work and the same `est` / `eft` outside the
+task list give the same `est` and `eft` -/
+theorem pertFwd_norm (hok : GraphOK m) (hac : Acyclic m) (l l' : Live) (time : Rat)
+    (hrem : l'.rem = l.rem) (hnn : ∀ t, t < m.nT → 0 ≤ l.rem t)
+    (hest : ∀ t, ¬ t < m.nT → l'.est t = l.est t) (heft : ∀ t, ¬ t < m.nT → l'.eft t = l.eft t) :
+    (pertFwd m time l').est = (pertFwd m time l).est ∧
+    (pertFwd m time l').eft = (pertFwd m time l).eft := by
+  apply pertFwd_congr m (fwdRanked_of hok hac) l l' time hrem hest
+  intro j hc hnw
+  by_cases hj : j < m.nT
+  · exfalso
+    apply hnw
+    apply all_written hok hac l time hnn j hj
+    intro h0
+    exact hc ⟨hj, by rw [h0]; rfl⟩
+  · exact heft j hj
+
+/-- every `est` is at least the clock -/
+theorem pertFwd_lo (l : Live) (time : Rat) :
+    ∀ t, t < m.nT → time ≤ (pertFwd m time l).est t := by
+  rw [pertFwd_eq]
+  refine fwdLoop_inv m l (fun p => ∀ t, t < m.nT → time ≤ p.est t) ?_ _ _ _ ?_
+    (fun i hi => (Idem.mem_heads m i hi).1)
+  · intro p i e hp hi he t ht
+    rw [fwdRelax_eq]
+    split
+    · rename_i hacc
+      show time ≤ upd p.est e.1 _ t
+      rw [upd_apply]
+      split
+      · rename_i h
+        have := hp e.1 (h ▸ ht)
+        exact Rat.le_trans this hacc
+      · exact hp t ht
+    · exact hp t ht
+  · intro t ht
+    show time ≤ (if t < m.nT then time else l.est t)
+    rw [if_pos ht]; exact Rat.le_refl
+
+/-- the `(est, eft)` a relaxation proposes are at least the remaining work of the target apart -/
+theorem fwdCand_span (l : Live) (p : Pert) (i : Nat) (e : Nat × Dep) :
+    (fwdCand l p i e).1 + l.rem e.1 ≤ (fwdCand l p i e).2 := by
+  obtain ⟨nx, d⟩ := e
+  cases d <;> simp only [fwdCand] <;> grind
+
+/-- `est + remaining ≤ eft` for every task -/
+theorem pertFwd_span (hok : GraphOK m) (hac : Acyclic m) (l : Live) (time : Rat)
+    (hnn : ∀ t, t < m.nT → 0 ≤ l.rem t) :
+    ∀ t, t < m.nT → (pertFwd m time l).est t + l.rem t ≤ (pertFwd m time l).eft t := by
+  let l2 : Live := { l with eft := fun t => if t < m.nT then time + l.rem t else l.eft t }
+  obtain ⟨h1, h2⟩ := pertFwd_norm hok hac l l2 time rfl hnn (fun _ _ => rfl)
+    (fun t ht => by show (if t < m.nT then _ else l.eft t) = l.eft t; rw [if_neg ht])
+  rw [← h1, ← h2, pertFwd_eq]
+  refine fwdLoop_inv m l2 (fun p => ∀ t, t < m.nT → p.est t + l.rem t ≤ p.eft t) ?_ _ _ _ ?_
+    (fun i hi => (Idem.mem_heads m i hi).1)
+  · intro p i e hp hi he t ht
+    rw [fwdRelax_eq]
+    split
+    · show upd p.est e.1 _ t + l.rem t ≤ upd p.eft e.1 _ t
+      rw [upd_apply, upd_apply]
+      split
+      · rename_i h
+        rw [h]
+        exact fwdCand_span l2 p i e
+      · exact hp t ht
+    · exact hp t ht
+  · intro t ht
+    show (if t < m.nT then time else l.est t) + l.rem t ≤
+      (if t < m.nT && (m.task t).inputs.isEmpty then time + l.rem t
+        else (if t < m.nT then time + l.rem t else l.eft t))
+    rw [if_pos ht]
+    split
+    · exact Rat.le_refl
+    · exact Rat.le_refl
+
+/-- the pair a relaxation proposes, `d` later -/
+theorem fwdCand_shift (l : Live) (p p' : Pert) (i : Nat) (e : Nat × Dep) (d : Rat)
+    (h1 : p'.est i = p.est i + d) (h2 : p'.eft i = p.eft i + d) :
+    (fwdCand l p' i e).1 = (fwdCand l p i e).1 + d ∧ (fwdCand l p' i e).2 = (fwdCand l p i e).2 + d := by
+  obtain ⟨nx, k⟩ := e
+  cases k <;> simp only [fwdCand, h1, h2] <;> constructor <;> grind
+
+/-- **forward pass, shift of `est` and `eft`**: started `d` later on the same (non-negative)
+remaining work, the pass computes every `est` and every `eft` below `m.nT` exactly `d` later -/
+theorem pertFwd_shift (hok : GraphOK m) (hac : Acyclic m) (l l' : Live) (hr : l'.rem = l.rem)
+    (hnn : ∀ t, t < m.nT → 0 ≤ l.rem t) (time d : Rat) :
+    ∀ t, t < m.nT → (pertFwd m (time + d) l').est t = (pertFwd m time l).est t + d ∧
+      (pertFwd m (time + d) l').eft t = (pertFwd m time l).eft t + d := by
+  have hwf := wf_of_graphOK hok
+  let l2 : Live := { l' with eft := fun t => if t < m.nT then l.eft t + d else l'.eft t }
+  obtain ⟨h1, h2⟩ := pertFwd_norm hok hac l' l2 (time + d) rfl (by rw [hr]; exact hnn) (fun _ _ => rfl)
+    (fun t ht => by show (if t < m.nT then _ else l'.eft t) = l'.eft t; rw [if_neg ht])
+  rw [← h1, ← h2, pertFwd_eq, pertFwd_eq, fwdLoop_rem m (show l2.rem = l.rem from hr)]
+  refine fwdLoop_pair m l
+    (fun p p' => ∀ t, t < m.nT → p'.est t = p.est t + d ∧ p'.eft t = p.eft t + d) (fun _ _ _ => True)
+    ?_ (m.nT + 1) (heads m) (fwdInit m time l) (fwdInit m (time + d) l2) ?_
+    (fun i hi => ⟨(Idem.mem_heads m i hi).1, trivial⟩)
+  · intro p p' i e hS hi _ he
+    refine ⟨?_, trivial, fun _ _ => trivial⟩
+    have hlt : e.1 < m.nT := (hwf i hi).2 e he
+    obtain ⟨c1, c2⟩ := fwdCand_shift l p p' i e d (hS i hi).1 (hS i hi).2
+    rw [fwdRelax_eq l p, fwdRelax_eq l p', c1, (hS e.1 hlt).1]
+    have hiff : ((fwdCand l p i e).1 + d ≥ p.est e.1 + d) ↔ ((fwdCand l p i e).1 ≥ p.est e.1) := by
+      constructor <;> intro h <;> grind
+    by_cases hw : (fwdCand l p i e).1 ≥ p.est e.1
+    · rw [if_pos hw, if_pos (hiff.2 hw)]
+      intro t ht
+      show upd p'.est e.1 _ t = upd p.est e.1 _ t + d ∧ upd p'.eft e.1 _ t = upd p.eft e.1 _ t + d
+      rw [upd_apply, upd_apply, upd_apply, upd_apply]
+      split
+      · exact ⟨rfl, c2⟩
+      · exact hS t ht
+    · rw [if_neg hw, if_neg (fun h => hw (hiff.1 h))]
+      exact hS
+  · intro t ht
+    show (if t < m.nT then time + d else l'.est t) = (if t < m.nT then time else l.est t) + d ∧
+      (if t < m.nT && (m.task t).inputs.isEmpty then time + d + l'.rem t
+        else (if t < m.nT then l.eft t + d else l'.eft t)) =
+      (if t < m.nT && (m.task t).inputs.isEmpty then time + l.rem t else l.eft t) + d
+    rw [if_pos ht, if_pos ht, if_pos ht, hr]
+    refine ⟨rfl, ?_⟩
+    split
+    · grind
+    · rfl
+
+/-- **every edge inequality holds for the final `est`** -/
+theorem pertFwd_edge (hok : GraphOK m) (hac : Acyclic m) (l : Live) (time : Rat) :
+    ∀ o, o < m.nT → ∀ e ∈ (m.task o).inputs,
+      (fwdCand l (pertFwd m time l) e.1 (o, e.2)).1 ≤ (pertFwd m time l).est o := by
+  intro o ho e he
+  obtain ⟨rk, hrk⟩ := fwdRanked_of hok hac
+  obtain ⟨hp, hout⟩ := (hok o ho).1 e he
+  rw [pertFwd_fold]
+  exact fold_edge l _ _ (fwdEvs_SS m rk hrk) (fwdEvs_noSelf m rk hrk) (e.1, (o, e.2))
+    (all_fwdEvs hok hac e.1 hp (o, e.2) hout)
+
+end cover
+
+section bwd
+variable {m : Model}
+
+theorem mem_prevOf_iff (wave : List Nat) (t : Nat) :
+    t ∈ prevOf m wave ↔ t < m.nT ∧ ∃ o ∈ wave, ∃ e ∈ (m.task o).inputs, e.1 = t := by
+  rw [prevOf, Idem.mem_canonSet]
+  constructor
+  · rintro ⟨h1, h2⟩
+    obtain ⟨o, ho, ht⟩ := List.mem_flatMap.mp h2
+    obtain ⟨e, he, rfl⟩ := List.mem_map.mp ht
+    exact ⟨h1, o, ho, e, he, rfl⟩
+  · rintro ⟨h1, o, ho, e, he, rfl⟩
+    exact ⟨h1, List.mem_flatMap.mpr ⟨o, ho, List.mem_map.mpr ⟨e, he, rfl⟩⟩⟩
+
+/-- **two backward passes side by side, with coverage.**  `S` relates the two tables, `G p p' t`
+says that task `t` is "good"; a relaxation out of a good task preserves `S`, makes its target good
+and keeps good tasks good.  `hgt` is a height (longest distance to a task without successor): if
+the pass starts from a wave of good tasks containing every task of height `k`, all tasks below
+height `k` being good, and has fuel for the remaining heights, it ends with `S` and with every
+task below `m.nT` good. -/
+theorem bwdLoop_cover (l : Live) (S : Pert → Pert → Prop) (G : Pert → Pert → Nat → Prop)
+    (hstep : ∀ p p' o e, S p p' → o < m.nT → G p p' o → e ∈ (m.task o).inputs →
+      S (bwdRelax l p o e) (bwdRelax l p' o e) ∧ G (bwdRelax l p o e) (bwdRelax l p' o e) e.1 ∧
+      ∀ t, G p p' t → G (bwdRelax l p o e) (bwdRelax l p' o e) t)
+    (hgt : Nat → Nat)
+    (hpred : ∀ t, t < m.nT → ∀ k, hgt t = k + 1 →
+      ∃ o, o < m.nT ∧ hgt o = k ∧ ∃ e ∈ (m.task o).inputs, e.1 = t)
+    (hdown : ∀ t, t < m.nT → ∀ j, j ≤ hgt t → ∃ y, y < m.nT ∧ hgt y = j) :
+    ∀ (fuel k : Nat) (wave : List Nat) (p p' : Pert), S p p' →
+      (∀ o ∈ wave, o < m.nT ∧ G p p' o) →
+      (∀ t, t < m.nT → hgt t < k → G p p' t) →
+      (∀ t, t < m.nT → hgt t = k → t ∈ wave) →
+      (∀ t, t < m.nT → hgt t < fuel + k) →
+      S (bwdLoop m l fuel wave p) (bwdLoop m l fuel wave p') ∧
+      ∀ t, t < m.nT → G (bwdLoop m l fuel wave p) (bwdLoop m l fuel wave p') t := by
+  -- the relaxations into the predecessors of one task
+  have inner : ∀ (o : Nat) (es : List (Nat × Dep)) (p p' : Pert), S p p' → o < m.nT → G p p' o →
+      (∀ e ∈ es, e ∈ (m.task o).inputs) →
+      S (es.foldl (fun a e => bwdRelax l a o e) p) (es.foldl (fun a e => bwdRelax l a o e) p') ∧
+      (∀ e ∈ es, G (es.foldl (fun a e => bwdRelax l a o e) p)
+        (es.foldl (fun a e => bwdRelax l a o e) p') e.1) ∧
+      (∀ t, G p p' t → G (es.foldl (fun a e => bwdRelax l a o e) p)
+        (es.foldl (fun a e => bwdRelax l a o e) p') t) := by
+    intro o es
+    induction es with
+    | nil => intro p p' hS _ _ _; exact ⟨hS, fun _ h => by simp at h, fun _ h => h⟩
+    | cons e es ih =>
+      intro p p' hS ho hG hes
+      obtain ⟨s1, g1, m1⟩ := hstep p p' o e hS ho hG (hes e (List.mem_cons_self ..))
+      obtain ⟨s2, g2, m2⟩ := ih _ _ s1 ho (m1 o hG) (fun x hx => hes x (List.mem_cons_of_mem _ hx))
+      simp only [List.foldl_cons]
+      refine ⟨s2, ?_, fun t ht => m2 t (m1 t ht)⟩
+      intro x hx
+      rcases List.mem_cons.mp hx with rfl | hx
+      · exact m2 _ g1
+      · exact g2 x hx
+  -- one wave
+  have wv : ∀ (wave : List Nat) (p p' : Pert), S p p' → (∀ o ∈ wave, o < m.nT ∧ G p p' o) →
+      S (bwdWave m l wave p) (bwdWave m l wave p') ∧
+      (∀ o ∈ wave, ∀ e ∈ (m.task o).inputs, G (bwdWave m l wave p) (bwdWave m l wave p') e.1) ∧
+      (∀ t, G p p' t → G (bwdWave m l wave p) (bwdWave m l wave p') t) := by
+    intro wave
+    induction wave with
+    | nil => intro p p' hS _; exact ⟨hS, fun _ h => by simp at h, fun _ h => h⟩
+    | cons o wave ih =>
+      intro p p' hS hw
+      obtain ⟨ho, hG⟩ := hw o (List.mem_cons_self ..)
+      obtain ⟨s1, g1, m1⟩ := inner o (m.task o).inputs p p' hS ho hG (fun _ h => h)
+      obtain ⟨s2, g2, m2⟩ := ih _ _ s1
+        (fun j hj => ⟨(hw j (List.mem_cons_of_mem _ hj)).1, m1 j (hw j (List.mem_cons_of_mem _ hj)).2⟩)
+      simp only [bwdWave, List.foldl_cons] at s2 g2 m2 ⊢
+      refine ⟨s2, ?_, fun t ht => m2 t (m1 t ht)⟩
+      intro j hj e he
+      rcases List.mem_cons.mp hj with rfl | hj
+      · exact m2 _ (g1 e he)
+      · exact g2 j hj e he
+  intro fuel
+  induction fuel with
+  | zero =>
+    intro k wave p p' hS _ h3 _ h5
+    exact ⟨hS, fun t ht => h3 t ht (by have := h5 t ht; omega)⟩
+  | succ n ih =>
+    intro k wave p p' hS hw h3 h4 h5
+    simp only [bwdLoop]
+    split
+    · rename_i hemp
+      refine ⟨hS, fun t ht => ?_⟩
+      by_cases hk : hgt t < k
+      · exact h3 t ht hk
+      · obtain ⟨y, hy, hyk⟩ := hdown t ht k (by omega)
+        have := h4 y hy hyk
+        have hnil : wave = [] := by simpa using hemp
+        rw [hnil] at this
+        simp at this
+    · obtain ⟨s1, g1, m1⟩ := wv wave p p' hS hw
+      apply ih (k + 1) _ _ _ s1
+      · intro t ht
+        obtain ⟨hlt, o, ho, e, he, rfl⟩ := (mem_prevOf_iff wave t).1 ht
+        exact ⟨hlt, g1 o ho e he⟩
+      · intro t ht hk
+        by_cases hk' : hgt t < k
+        · exact m1 t (h3 t ht hk')
+        · exact m1 t (hw t (h4 t ht (by omega))).2
+      · intro t ht hk
+        obtain ⟨o, ho, hok, e, he, het⟩ := hpred t ht k hk
+        exact (mem_prevOf_iff wave t).2 ⟨ht, o, h4 o ho hok, e, he, het⟩
+      · intro t ht
+        have := h5 t ht
+        omega
+
+/-- task `t` holds in the second table the `lft` / `lst` of the first one plus `c` -/
+def GoodAt (c : Rat) (p p' : Pert) (t : Nat) : Prop :=
+  p'.lft t = p.lft t + c ∧ p'.lst t = p.lst t + c
+
+/-- the two tables have the same `calculated_task_set`, and every task in it holds values `c`
+apart (nothing is said about a task that has not been set: the pass never reads its values) -/
+def BRel (c : Rat) (p p' : Pert) : Prop :=
+  p'.done = p.done ∧ ∀ t, p.done t = true → GoodAt c p p' t
+
+theorem bwdCand_shift (l : Live) (p p' : Pert) (o : Nat) (e : Nat × Dep) (d : Rat)
+    (h1 : p'.lft o = p.lft o + d) (h2 : p'.lst o = p.lst o + d) :
+    (bwdCand l p' o e).1 = (bwdCand l p o e).1 + d ∧ (bwdCand l p' o e).2 = (bwdCand l p o e).2 + d := by
+  obtain ⟨pv, k⟩ := e
+  cases k <;> simp only [bwdCand, h1, h2] <;> constructor <;> grind
+
+/-- what a relaxation out of a set task proposes lies between the `est` of the target and … -/
+theorem bwdCand_bounds (l : Live) (p : Pert) (o : Nat) (e : Nat × Dep) (E : Nat → Rat)
+    (hrem : 0 ≤ l.rem e.1) (h1 : E o ≤ p.lst o) (h2 : p.lst o ≤ p.lft o)
+    (hedge : (match e.2 with | .fs => E e.1 + l.rem e.1 | _ => E e.1) ≤ E o) :
+    E e.1 ≤ (bwdCand l p o e).1 ∧ (bwdCand l p o e).1 ≤ (bwdCand l p o e).2 := by
+  obtain ⟨pv, k⟩ := e
+  cases k <;> simp only [bwdCand] at * <;> constructor <;> grind
+
+/-- **one backward relaxation is equivariant under a shift of the tables by any constant**: out
+of a task whose values are `c` apart, with the same `calculated_task_set` and the set tasks `c`
+apart, the two relaxations take the same branch (the test is `pv not in calculated_task_set or
+pre_lft >= lft`: no absolute number), and afterwards the target is set in both, `c` apart.  No
+condition on the link kind, the remaining work or the sign of any value. -/
+theorem brel_step (l : Live) (c : Rat) (p p' : Pert) (o : Nat) (e : Nat × Dep)
+    (hS : BRel c p p') (hG : GoodAt c p p' o) :
+    BRel c (bwdRelax l p o e) (bwdRelax l p' o e) ∧
+    GoodAt c (bwdRelax l p o e) (bwdRelax l p' o e) e.1 ∧
+    ∀ t, GoodAt c p p' t → GoodAt c (bwdRelax l p o e) (bwdRelax l p' o e) t := by
+  obtain ⟨c1, c2⟩ := bwdCand_shift l p p' o e c hG.1 hG.2
+  -- the two acceptance tests agree
+  have hcond : (p'.done e.1 = false ∨ p'.lft e.1 ≥ (bwdCand l p' o e).2) ↔
+      (p.done e.1 = false ∨ p.lft e.1 ≥ (bwdCand l p o e).2) := by
+    rw [hS.1]
+    cases hd : p.done e.1 with
+    | false => exact ⟨fun _ => Or.inl rfl, fun _ => Or.inl rfl⟩
+    | true =>
+      obtain ⟨g1, _⟩ := hS.2 e.1 hd
+      rw [c2, g1]
+      constructor <;> intro h <;> grind
+  rw [bwdRelax_eq l p, bwdRelax_eq l p']
+  by_cases hc : p.done e.1 = false ∨ p.lft e.1 ≥ (bwdCand l p o e).2
+  · rw [if_pos hc, if_pos (hcond.2 hc)]
+    have hgood : GoodAt c
+        { p with lst := upd p.lst e.1 (bwdCand l p o e).1, lft := upd p.lft e.1 (bwdCand l p o e).2,
+                 done := upd p.done e.1 true }
+        { p' with lst := upd p'.lst e.1 (bwdCand l p' o e).1, lft := upd p'.lft e.1 (bwdCand l p' o e).2,
+                  done := upd p'.done e.1 true } e.1 := by
+      constructor
+      · show upd p'.lft e.1 _ e.1 = upd p.lft e.1 _ e.1 + c
+        rw [upd_same, upd_same, c2]
+      · show upd p'.lst e.1 _ e.1 = upd p.lst e.1 _ e.1 + c
+        rw [upd_same, upd_same, c1]
+    have hother : ∀ t, t ≠ e.1 → (GoodAt c
+        { p with lst := upd p.lst e.1 (bwdCand l p o e).1, lft := upd p.lft e.1 (bwdCand l p o e).2,
+                 done := upd p.done e.1 true }
+        { p' with lst := upd p'.lst e.1 (bwdCand l p' o e).1, lft := upd p'.lft e.1 (bwdCand l p' o e).2,
+                  done := upd p'.done e.1 true } t
+          ↔ GoodAt c p p' t) := by
+      intro t hne
+      simp only [GoodAt, upd_other _ _ _ _ hne]
+    refine ⟨⟨?_, ?_⟩, hgood, ?_⟩
+    · show upd p'.done e.1 true = upd p.done e.1 true
+      rw [hS.1]
+    · intro t ht
+      by_cases hte : t = e.1
+      · rw [hte]; exact hgood
+      · apply (hother t hte).2
+        apply hS.2 t
+        have : upd p.done e.1 true t = true := ht
+        rw [upd_other _ _ _ _ hte] at this
+        exact this
+    · intro t hg
+      by_cases hte : t = e.1
+      · rw [hte]; exact hgood
+      · exact (hother t hte).2 hg
+  · rw [if_neg hc, if_neg (fun h => hc (hcond.1 h))]
+    refine ⟨hS, ?_, fun _ h => h⟩
+    apply hS.2 e.1
+    cases hd : p.done e.1 with
+    | false => exact absurd (Or.inl hd) hc
+    | true => rfl
+
+end bwd
+
+section main
+variable {m : Model}
+
+theorem maxList_shift (c c' d : Rat) {xs : List Rat} (h : xs ≠ []) :
+    maxList c' (xs.map (· + d)) = maxList c xs + d := by
+  cases xs with
+  | nil => exact absurd rfl h
+  | cons x xs =>
+    rw [List.map_cons, maxList_eq, maxList_eq]
+    exact foldl_max_shift xs x d
+
+/-- **the backward pass is equivariant under a shift of the critical path length by any constant**
+(consistent acyclic network, ANY link kinds, ANY remaining work): started from `cpl + c` instead of
+`cpl` on the same remaining work, it ends with every `lft` and every `lst` below `m.nT` exactly `c`
+later.  (The `est` / `eft` of the tables are not read at all.) -/
+theorem pertBwd_shift (hok : GraphOK m) (hac : Acyclic m) (l l' : Live) (hr : l'.rem = l.rem)
+    (p p' : Pert) (cpl c : Rat) :
+    ∀ t, t < m.nT →
+      GoodAt c (bwdLoop m l (m.nT + 1) (tails m) (bwdInit m l cpl p))
+        (bwdLoop m l (m.nT + 1) (tails m) (bwdInit m l' (cpl + c) p')) t := by
+  have hg := dag_of hok hac
+  obtain ⟨hgt, hdep⟩ := exists_depth hg.symm.G_lt hg.symm.acyc
+  have hcov := bwdLoop_cover (m := m) l (BRel c) (GoodAt c)
+    (fun p p' o e hS _ hG _ => brel_step l c p p' o e hS hG)
+    hgt
+    (fun t ht k hk => by
+      have hne : Hm m t ≠ [] := by
+        intro h0; have := hdep.head t ht h0; omega
+      obtain ⟨y, hy, hyk⟩ := hdep.pred t ht hne
+      have hylt := hg.H_lt t ht y hy
+      obtain ⟨dd, hdd⟩ := mem_Hm.1 hy
+      exact ⟨y, hylt, by omega, (t, dd), ((hok t ht).2 (y, dd) hdd).2, rfl⟩)
+    (fun t ht j hj => hdep.down hg.symm.G_lt (hgt t) t ht rfl j hj)
+    (m.nT + 1) 0 (tails m) (bwdInit m l cpl p) (bwdInit m l' (cpl + c) p')
+    ?_ ?_ (fun _ _ h => absurd h (Nat.not_lt_zero _)) ?_
+    (fun t ht => by have := hdep.lt hg.symm.G_lt t ht; omega)
+  · exact hcov.2
+  · -- the start tables: nothing is set
+    exact ⟨rfl, fun t ht => by cases ht⟩
+  · -- the tails hold `cpl`, `cpl − rem`
+    intro x hxt
+    have hx := Idem.mem_tails m x hxt
+    have hc : (tails m).contains x = true := by simpa using hxt
+    refine ⟨hx, ?_, ?_⟩
+    · show (if (tails m).contains x then _ else _) = (if (tails m).contains x then _ else _) + c
+      rw [hc]; rfl
+    · show (if (tails m).contains x then _ else _) = (if (tails m).contains x then _ else _) + c
+      rw [hc, if_pos rfl, if_pos rfl, hr]; grind
+  · -- height 0 means tail
+    intro x hx h0
+    apply PertSpec.mem_tails.2 ⟨hx, ?_⟩
+    apply Classical.byContradiction
+    intro hne
+    obtain ⟨y, _, hyk⟩ := hdep.pred x hx hne
+    omega
+
+/-- **`update_PERT_data`, `lst` and `lft`: shift by the difference of the critical path lengths**
+(consistent acyclic network, ANY link kinds, ANY remaining work, ANY old PERT data, ANY two times):
+on the same remaining work, every `lst` and every `lft` below `m.nT` of the one computation is that
+of the other plus `cpl' − cpl`. -/
+theorem pert_lst_shift (hok : GraphOK m) (hac : Acyclic m) (l l' : Live) (hr : l'.rem = l.rem)
+    (time time' : Nat) :
+    ∀ t, t < m.nT →
+      (pert m time' l').lst t = (pert m time l).lst t + ((pert m time' l').cpl - (pert m time l).cpl) ∧
+      (pert m time' l').lft t = (pert m time l).lft t + ((pert m time' l').cpl - (pert m time l).cpl) := by
+  intro t ht
+  obtain ⟨_, _, fl, fL, fc⟩ := pert_fields m time l
+  obtain ⟨_, _, fl', fL', fc'⟩ := pert_fields m time' l'
+  rw [fl, fl', fL, fL', fc, fc', pertBwd_eq, pertBwd_eq, bwdLoop_rem m hr]
+  have key := pertBwd_shift hok hac l l' hr (pertFwd m (time : Rat) l) (pertFwd m (time' : Rat) l')
+    (maxList l.cpl ((tails m).map (pertFwd m (time : Rat) l).eft))
+    (maxList l'.cpl ((tails m).map (pertFwd m (time' : Rat) l').eft) -
+      maxList l.cpl ((tails m).map (pertFwd m (time : Rat) l).eft)) t ht
+  have hc : maxList l.cpl ((tails m).map (pertFwd m (time : Rat) l).eft) +
+      (maxList l'.cpl ((tails m).map (pertFwd m (time' : Rat) l').eft) -
+        maxList l.cpl ((tails m).map (pertFwd m (time : Rat) l).eft)) =
+      maxList l'.cpl ((tails m).map (pertFwd m (time' : Rat) l').eft) := by grind
+  rw [hc] at key
+  exact ⟨key.2, key.1⟩
+
+/-- **total slack on a general acyclic network: the same up to ONE constant for all tasks.**
+Consistent acyclic network, ANY link kinds, ANY remaining work (negative too), ANY old PERT data:
+computed `d` steps later on the same remaining work, the total slack `lst − est` of every task
+below `m.nT` changes by the same amount `(cpl' − cpl) − d`.  (The amount is `0` when no remaining
+work is negative, `pert_slack_shift_nonneg`; it need not be `0` otherwise — a task all of whose
+forward relaxations are rejected keeps the `eft` of an earlier `update_PERT_data`, which enters the
+critical path length — but the ORDER of the slacks is the same.) -/
+theorem pert_slack_shift_dag (hok : GraphOK m) (hac : Acyclic m) (l l' : Live) (hr : l'.rem = l.rem)
+    (time d : Nat) :
+    ∀ t, t < m.nT → (pert m (time + d) l').lst t - (pert m (time + d) l').est t =
+      (pert m time l).lst t - (pert m time l).est t +
+        (((pert m (time + d) l').cpl - (pert m time l).cpl) - (d : Rat)) := by
+  intro t ht
+  rw [(pert_lst_shift hok hac l l' hr time (time + d) t ht).1,
+    pert_est_shift m (wf_of_graphOK hok) l l' hr time d t ht]
+  grind
+
+/-- the critical path length `d` steps later on the same non-negative remaining work is `d` later -/
+theorem pert_cpl_shift_nonneg (hok : GraphOK m) (hac : Acyclic m) (l l' : Live) (hr : l'.rem = l.rem)
+    (hnn : ∀ t, t < m.nT → 0 ≤ l.rem t) (time d : Nat) (hn : 0 < m.nT) :
+    (pert m (time + d) l').cpl = (pert m time l).cpl + (d : Rat) := by
+  have hg := dag_of hok hac
+  have hcast : ((time + d : Nat) : Rat) = (time : Rat) + (d : Rat) := by push_cast; rfl
+  have hsh := pertFwd_shift hok hac l l' hr hnn (time : Rat) (d : Rat)
+  rw [← hcast] at hsh
+  obtain ⟨x0, hx0, hx0t⟩ := exists_tail hg hn
+  have hne : (tails m).map (pertFwd m (time : Rat) l).eft ≠ [] := by
+    intro h
+    have : x0 ∈ tails m := PertSpec.mem_tails.2 ⟨hx0, hx0t⟩
+    simp only [List.map_eq_nil_iff] at h
+    rw [h] at this
+    simp at this
+  have hmap : (tails m).map (pertFwd m ((time + d : Nat) : Rat) l').eft =
+      ((tails m).map (pertFwd m (time : Rat) l).eft).map (· + (d : Rat)) := by
+    rw [List.map_map]
+    apply List.map_congr_left
+    intro x hx
+    exact (hsh x (Idem.mem_tails m x hx)).2
+  rw [pert_cpl, pert_cpl, hmap]
+  exact maxList_shift _ _ _ hne
+
+/-- **`update_PERT_data`, shift** (consistent acyclic network, ANY link kinds, no negative
+remaining work): computed `d` steps later on the same remaining work, every `est` and every `lst`
+below `m.nT` is exactly `d` later. -/
+theorem pert_shift_nonneg (hok : GraphOK m) (hac : Acyclic m) (l l' : Live) (hr : l'.rem = l.rem)
+    (hnn : ∀ t, t < m.nT → 0 ≤ l.rem t) (time d : Nat) :
+    ∀ t, t < m.nT → (pert m (time + d) l').est t = (pert m time l).est t + (d : Rat) ∧
+      (pert m (time + d) l').lst t = (pert m time l).lst t + (d : Rat) := by
+  intro t ht
+  refine ⟨pert_est_shift m (wf_of_graphOK hok) l l' hr time d t ht, ?_⟩
+  rw [(pert_lst_shift hok hac l l' hr time (time + d) t ht).1,
+    pert_cpl_shift_nonneg hok hac l l' hr hnn time d (by omega)]
+  grind
+
+/-- **total slack, shift** for any link kinds: on a consistent acyclic network, on a state without
+negative remaining work, the slack `lst − est` of every task does not depend on the time -/
+theorem pert_slack_shift_nonneg (hok : GraphOK m) (hac : Acyclic m) (l l' : Live) (hr : l'.rem = l.rem)
+    (hnn : ∀ t, t < m.nT → 0 ≤ l.rem t) (time d : Nat) :
+    ∀ t, t < m.nT → (pert m (time + d) l').lst t - (pert m (time + d) l').est t =
+      (pert m time l).lst t - (pert m time l).est t := by
+  intro t ht
+  obtain ⟨h1, h2⟩ := pert_shift_nonneg hok hac l l' hr hnn time d t ht
+  rw [h1, h2]; grind
+
+end main
+
+/-! ## Part 3 — C10.3 for TSLACK on general networks
+
+The final assembly of `PDesy.Lemmas.Removal` (`taskLe_rel`, `rel_working`, `loop_rel`,
+`removal_of_absStep`) once more, with `ModelOKw (GraphOK ∧ Acyclic)` in place of `ModelOK`. -/
+
+section runs
+
+/-- after `check_state(FINISHED)` of the next `__update` no task has negative remaining work -/
+def NonNeg (m : Model) (a0 : St) : Prop := ∀ t, t < m.nT → 0 ≤ (upd0 m a0.live).rem t
+
+/-- the weakest restriction on TSLACK used below: consistent link lists, no cycle -/
+abbrev DagOK (m : Model) : Prop := GraphOK m ∧ Acyclic m
+
+/-- `Removal.taskLe_pert_shift` with TSLACK admitted on every consistent acyclic network, any link
+kinds, any remaining work: the slacks of the two computations differ by one constant
+(`pert_slack_shift_dag`), so they order the tasks in the same way -/
+theorem taskLe_pert_shift_dag (m : Model) (hwf : WF m) (rule : TaskRule) (hrule : rule ≠ .fifo)
+    (l l' : Live) (hr : l'.rem = l.rem) (hsl : rule = .tslack → DagOK m)
+    (time d : Nat) (lg lg' : Logs) (a b : Nat) (ha : a < m.nT) (hb : b < m.nT) :
+    taskLe m (pert m (time + d) l') lg' rule a b = taskLe m (pert m time l) lg rule a b := by
+  by_cases ht : rule = .tslack
+  · obtain ⟨hok, hac⟩ := hsl ht
+    subst ht
+    exact taskLe_of_key_shift m _ _ lg lg' .tslack
+      (((pert m (time + d) l').cpl - (pert m time l).cpl) - (d : Rat)) a b
+      (pert_slack_shift_dag hok hac l l' hr time d a ha)
+      (pert_slack_shift_dag hok hac l l' hr time d b hb)
+  · exact taskLe_pert_shift m hwf rule hrule l l' hr (fun h => absurd h ht) time d lg lg' a b ha hb
+
+/-- the same, in the form it had before the repair of the backward pass (the hypothesis "no
+negative remaining work" is no longer used) -/
+theorem taskLe_pert_shift_nonneg (m : Model) (hwf : WF m) (rule : TaskRule) (hrule : rule ≠ .fifo)
+    (l l' : Live) (hr : l'.rem = l.rem)
+    (hsl : rule = .tslack → DagOK m ∧ ∀ t, t < m.nT → 0 ≤ l.rem t)
+    (time d : Nat) (lg lg' : Logs) (a b : Nat) (ha : a < m.nT) (hb : b < m.nT) :
+    taskLe m (pert m (time + d) l') lg' rule a b = taskLe m (pert m time l) lg rule a b :=
+  taskLe_pert_shift_dag m hwf rule hrule l l' hr (fun h => (hsl h).1) time d lg lg' a b ha hb
+
+/-- the comparison functions of the two runs agree at related states -/
+theorem taskLe_rel' (m : Model) (rule : TaskRule) (hm : ModelOKw DagOK m rule) (L : List Nat) (a0 b0 : St)
+    (h : Rel m L a0 b0)
+    (lgA lgB : Logs) (x y : Nat) (hx : x < m.nT) (hy : y < m.nT) :
+    taskLe m (setP (update m a0.time a0.live) (update m b0.time b0.live)) lgA rule x y =
+      taskLe m (update m b0.time b0.live) lgB rule x y := by
+  have hr : (upd0 m a0.live).rem = (upd0 m b0.live).rem := h.live.rem
+  rw [taskLe_setP m _ _ lgA rule x y h.live.rem.symm, update_eq, update_eq, h.time]
+  exact taskLe_pert_shift_dag m hm.wf rule hm.notFifo (upd0 m b0.live) (upd0 m a0.live) hr
+    hm.slack b0.time _ lgB lgA x y hx hy
+
+/-- **a working step preserves the relation** (as `Removal.rel_working`) -/
+theorem rel_working' (m : Model) (pA pB : Params) (hm : ModelOKw DagOK m pA.rule) (hrule : pB.rule = pA.rule)
+    (haf : pB.autoFlag = pA.autoFlag) (hB : pB.absence = [])
+    (a0 b0 : St) (h : Rel m pA.absence a0 b0)
+    (hw : pA.absence.contains a0.time = false) :
+    Rel m pA.absence (stepBody m pA (updated m a0)) (stepBody m pB (updated m b0)) := by
+  have hwA : (!(pA.absence.contains (updated m a0).time)) = true := by
+    show (!(pA.absence.contains a0.time)) = true
+    rw [hw]; rfl
+  have hwB : (!(pB.absence.contains (updated m b0).time)) = true := by rw [hB]; rfl
+  have gA := h.goodA.update a0.time
+  have gB := h.goodB.update b0.time
+  have hle := taskLe_rel' m pA.rule hm pA.absence a0 b0 h (updated m a0).logs (updated m b0).logs
+  have hpre := preLive_working m hm.noInd hm.compNoAuto pA.rule pA.autoFlag (updated m a0).live
+    (updated m b0).live (updated m a0).logs (updated m b0).logs (updated m a0).time (updated m b0).time
+    h.live hle
+  have hlive : (stepBody m pA (updated m a0)).live =
+      setP (updated m a0).live (stepBody m pB (updated m b0)).live := by
+    rw [stepBody_live_eq, stepBody_live_eq, hwA, hwB, hrule, haf]
+    exact stepLive_working m hm.noInd hm.compNoAuto pA.rule pA.autoFlag _ _ _ _ _ _ h.live hle
+  have hsteps : stepsBelow (a0.time + 1) pA.absence = stepsBelow a0.time pA.absence :=
+    stepsBelow_succ_of_not_mem _ _ hw
+  refine ⟨?_, ?_, ?_, ?_, ?_, ?_⟩
+  · show LRel m (update m (a0.time + 1) (stepBody m pA (updated m a0)).live)
+      (update m (b0.time + 1) (stepBody m pB (updated m b0)).live)
+    rw [hlive]
+    exact update_rel_setP m _ _ _ _
+  · show a0.time + 1 = b0.time + 1 + (stepsBelow (a0.time + 1) pA.absence).length
+    rw [hsteps]; have := h.time; omega
+  · show removeLogs m (stepsBelow (a0.time + 1) pA.absence) (stepBody m pA (updated m a0)).logs = _
+    rw [hsteps, stepBody_logs_eq, stepBody_logs_eq, hwA, hwB, hlive, hrule, haf, hpre, addRow_setP]
+    have := removeLogs_addRow_keep m true
+      (preLive m (updated m b0).logs pA.rule pA.autoFlag (updated m b0).time true (updated m b0).live)
+      (stepBody m pB (updated m b0)).live a0 h.alignA (stepsBelow a0.time pA.absence)
+      (stepsBelow_pairwise _ _) (fun d hd => (mem_stepsBelow.1 hd).1)
+    show removeLogs m _ (addRow m true _ _ a0.logs) = addRow m true _ _ b0.logs
+    rw [this, h.logs]
+  · exact C08_aligned_step _ (C08_aligned_updated _ h.alignA)
+  · exact Good.stepBody pA (s := updated m a0) gA
+  · exact Good.stepBody pB (s := updated m b0) gB
+
+/-- **the loop, side by side** (as `Removal.loop_rel`); `J` is any invariant of run A that the
+absence step may use -/
+theorem loop_rel' (m : Model) (pA pB : Params) (hm : ModelOKw DagOK m pA.rule) (hrule : pB.rule = pA.rule)
+    (haf : pB.autoFlag = pA.autoFlag) (hB : pB.absence = []) (hmax : pB.maxTime = pA.maxTime)
+    (J : St → Prop) (hJ : ∀ a0, J a0 → J (stepBody m pA (updated m a0)))
+    (habs : AbsStepOK m pA J) :
+    ∀ (fuelA : Nat) (a0 b0 : St) (fuelB : Nat), Rel m pA.absence a0 b0 → J a0 →
+      a0.status ≠ .success → fuelOf pB b0 ≤ fuelB →
+      (loop m pA fuelA a0).status = .success →
+      EndRel m pA.absence (loop m pA fuelA a0) (loop m pB fuelB b0) := by
+  intro fuelA
+  induction fuelA with
+  | zero =>
+    intro a0 b0 fuelB _ _ hst _ hs
+    exact absurd hs hst
+  | succ n ih =>
+    intro a0 b0 fuelB h hj hst hfuel hs
+    obtain ⟨fB, rfl⟩ : ∃ k, fuelB = k + 1 := ⟨fuelB - 1, by have := fuelOf_pos pB b0; omega⟩
+    have hfin : allFinished m (updated m a0).live = allFinished m (updated m b0).live :=
+      allFinished_congr h.live.ts
+    rw [loop_succ] at hs ⊢
+    by_cases hA : allFinished m (updated m a0).live = true
+    · rw [if_pos hA]
+      rw [loop_succ, if_pos (hfin ▸ hA)]
+      exact ⟨rfl, h.time, h.logs, C08_aligned_status _ _ (C08_aligned_updated _ h.alignA)⟩
+    · rw [if_neg hA] at hs ⊢
+      by_cases hT : a0.time ≥ pA.maxTime
+      · rw [if_pos hT] at hs
+        cases hs
+      · rw [if_neg hT] at hs ⊢
+        cases hc : pA.absence.contains a0.time
+        · have hBt : ¬ b0.time ≥ pB.maxTime := by
+            have := h.time; rw [hmax]; omega
+          rw [loop_succ m pB fB b0, if_neg (hfin ▸ hA), if_neg hBt]
+          apply ih _ _ fB (rel_working' m pA pB hm hrule haf hB a0 b0 h hc)
+            (hJ a0 hj) hst
+          · have := fuelOf_step m pB b0 hBt
+            omega
+          · exact hs
+        · exact ih _ b0 (fB + 1) (habs a0 b0 h hj hc) (hJ a0 hj) hst hfuel hs
+
+/-- **C10.3 with TSLACK on a general acyclic network** (as `Removal.removal`, with
+`ModelOKw DagOK` — TSLACK on any consistent acyclic network, any link kinds — in place of
+`ModelOK`); no condition on the signs of the remaining work -/
+theorem removal_dag (m : Model) (p : Params) (L : List Nat) (s : St)
+    (hm : ModelOKw DagOK m p.rule) (hw : WorkOK m) (hs : p.initState = true) (hl : p.initLog = true)
+    (hflag : p.autoFlag = false)
+    (hsucc : (simulate m { p with absence := L } s).status = .success) :
+    (removeAbs m (simulate m { p with absence := L } s)).logs = (simulate m { p with absence := [] } s).logs ∧
+    (removeAbs m (simulate m { p with absence := L } s)).time = (simulate m { p with absence := [] } s).time ∧
+    (removeAbs m (simulate m { p with absence := L } s)).status =
+      (simulate m { p with absence := [] } s).status ∧
+    (simulate m { p with absence := [] } s).status = .success := by
+  have habs : AbsStepOK m { p with absence := L } (fun _ => True) :=
+    fun a0 b0 h _ hc => rel_absence m { p with absence := L } hflag a0 b0 h trivial hc
+  have hend := loop_rel' m { p with absence := L } { p with absence := [] } hm rfl rfl rfl rfl
+    (fun _ => True) (fun _ _ => trivial) habs
+    (fuelOf { p with absence := L } (enter m { p with absence := L } s))
+    (enter m { p with absence := L } s) (enter m { p with absence := [] } s)
+    (fuelOf { p with absence := [] } (enter m { p with absence := [] } s))
+    (enter_rel m hw p L s hs hl) trivial
+    (by rw [enter_status m { p with absence := L } s hl]; intro h; cases h) (Nat.le_refl _)
+    (by rw [← simulate_eq]; exact hsucc)
+  rw [← simulate_eq, ← simulate_eq] at hend
+  have hab : (simulate m { p with absence := L } s).absence = L := by
+    rw [simulate_eq, loop_absence]; rfl
+  obtain ⟨h1, h2, h3⟩ := removeAbs_of_endRel m L _ _ hend hab hsucc
+  exact ⟨h1, h2, h3, hend.status⟩
+
+/-- `removal_dag` in the form it had before the repair of the backward pass: with an invariant
+`J` of run A that keeps the remaining work non-negative (no longer used) -/
+theorem removal_nonneg (m : Model) (p : Params) (L : List Nat) (s : St)
+    (hm : ModelOKw DagOK m p.rule) (hw : WorkOK m) (hs : p.initState = true) (hl : p.initLog = true)
+    (hflag : p.autoFlag = false)
+    (J : St → Prop) (_hJ0 : J (enter m { p with absence := L } s))
+    (_hJ : ∀ a0, J a0 → J (stepBody m { p with absence := L } (updated m a0)))
+    (_hJnn : p.rule = .tslack → ∀ a0, J a0 → NonNeg m a0)
+    (hsucc : (simulate m { p with absence := L } s).status = .success) :
+    (removeAbs m (simulate m { p with absence := L } s)).logs = (simulate m { p with absence := [] } s).logs ∧
+    (removeAbs m (simulate m { p with absence := L } s)).time = (simulate m { p with absence := [] } s).time ∧
+    (removeAbs m (simulate m { p with absence := L } s)).status =
+      (simulate m { p with absence := [] } s).status ∧
+    (simulate m { p with absence := [] } s).status = .success :=
+  removal_dag m p L s hm hw hs hl hflag hsucc
+
+/-- without FF / SF links every finish gate is open -/
+theorem finishGate_noGate (m : Model) (hng : NoFinishGate m) (ts : Nat → TS) (t : Nat) (ht : t < m.nT) :
+    finishGate m ts t = true := by
+  rw [Lifecycle.finishGate_iff]
+  intro e he
+  rcases hng t ht e he with h | h <;> rw [h] <;> exact ⟨(fun x => nomatch x), (fun x => nomatch x)⟩
+
+/-- on a network without FF / SF links no remaining work is negative after
+`check_state(FINISHED)` -/
+theorem rem_nonneg_noGate (m : Model) (hng : NoFinishGate m) (l : Live) (h : RemOK m l) :
+    ∀ t, t < m.nT → 0 ≤ (upd0 m l).rem t := by
+  intro t ht
+  have e : (upd0 m l).rem = (chkFinished m l).rem := Idem.update_rem m 0 l
+  rw [e]
+  by_cases hw : (chkFinished m l).tstate t = .working
+  · have hc := chkFinished_noCand m l t ht
+    rw [finishGate_noGate m hng _ t ht, Bool.and_true] at hc
+    simp only [finishCand, hw, beq_self_eq_true, Bool.true_and, decide_eq_false_iff_not] at hc
+    exact Rat.le_of_lt (Rat.not_le.mp hc)
+  · exact RemOK_chkFinished m l h t ht hw
+
+/-- the restriction on TSLACK of the partial result: FS and SS links only, consistent, acyclic -/
+def SlackOK2 (m : Model) : Prop := NoFinishGate m ∧ GraphOK m ∧ Acyclic m
+
+/-- **C10.3 with TSLACK on networks of FS and SS links** -/
+theorem removal_noGate (m : Model) (p : Params) (L : List Nat) (s : St)
+    (hm : ModelOKw SlackOK2 m p.rule) (hw : WorkOK m) (hs : p.initState = true) (hl : p.initLog = true)
+    (hflag : p.autoFlag = false)
+    (hsucc : (simulate m { p with absence := L } s).status = .success) :
+    (removeAbs m (simulate m { p with absence := L } s)).logs = (simulate m { p with absence := [] } s).logs ∧
+    (removeAbs m (simulate m { p with absence := L } s)).time = (simulate m { p with absence := [] } s).time ∧
+    (removeAbs m (simulate m { p with absence := L } s)).status =
+      (simulate m { p with absence := [] } s).status ∧
+    (simulate m { p with absence := [] } s).status = .success := by
+  exact removal_dag m p L s ⟨hm.noInd, hm.compNoAuto, hm.wf, hm.notFifo, fun h => (hm.slack h).2⟩
+    hw hs hl hflag hsucc
+
+end runs
 
 end SlackShift
 end PDesy
